@@ -16,6 +16,8 @@ import (
 // every build configuration (part B: prog.go, compared by the driver).
 
 var c07Arenas [3]*hx.Arena
+var c07Long [3]*hx.Arena          // 20480 words each: vectors far beyond any block size a kernel may use
+var c07FarLo, c07FarHi *hx.Arena // data regions exactly 4 GiB apart (nil when the address space cannot be reserved)
 
 func init() {
 	engines["C07"] = &engine{
@@ -23,6 +25,12 @@ func init() {
 		Setup: func(c *hx.Ctx) {
 			for i := range c07Arenas {
 				c07Arenas[i] = hx.NewArena()
+				c07Long[i] = hx.NewArenaPages(40)
+			}
+			if lo, hi, err := hx.NewFarPair(2); err == nil {
+				c07FarLo, c07FarHi = lo, hi
+			} else {
+				c.Count("far_pair_unavailable", 1)
 			}
 		},
 		Case:   c07Case,
@@ -82,6 +90,10 @@ func c07Case(c *hx.Ctx, r *hx.RNG, idx int64) {
 	}
 	if r.Chance(3) {
 		n = r.Range(200, 700) // beyond the statement's 0..70: block-copy paths a kernel may grow for long vectors
+	}
+	long := r.Intn(3000) == 0 && kern >= 3
+	if long { // around multiples of 4096 words, and in between
+		n = []int{4095, 4096, 4097, 8191, 8192, 8193, 12287, 12288, 12289, 16384, 16385, r.Range(4098, 20000), r.Range(8194, 20000)}[r.Intn(13)]
 	}
 	// scalar kernels
 	switch name {
@@ -167,6 +179,36 @@ func c07Case(c *hx.Ctx, r *hx.RNG, idx int64) {
 	xin := gen(n + extra)
 	yin := gen(n + extra)
 	zin := gen(n)
+	ripple := n > 1 && (name == "add10VV" || name == "sub10VV" || name == "add10VW" || name == "sub10VW") && r.Chance(map[bool]int{false: 12, true: 70}[long])
+	if ripple {
+		// a carry (borrow) born at word j that travels through every word above it
+		j := r.Intn(n)
+		if r.Chance(40) {
+			j = 0
+		}
+		for i := range xin {
+			switch name {
+			case "add10VV", "add10VW":
+				xin[i] = decimal.Word(wb - 1)
+			default:
+				xin[i] = 0
+			}
+			yin[i] = 0
+		}
+		yin[j] = 1
+		if name == "sub10VV" || name == "sub10VW" { // x = B^k, minus 1 at word j
+			if k := r.Range(j, n+extra-1); r.Chance(70) {
+				xin[k] = decimal.Word(r.Range(1, 9))
+			}
+		}
+		if j > 0 && (name == "add10VW" || name == "sub10VW") { // the single word enters at word 0
+			for i := 0; i < j; i++ {
+				if name == "add10VW" {
+					xin[i] = decimal.Word(wb - 1)
+				}
+			}
+		}
+	}
 	var w1, w2 decimal.Word
 	var s uint
 	twoSrc := name == "add10VV" || name == "sub10VV"
@@ -209,6 +251,9 @@ func c07Case(c *hx.Ctx, r *hx.RNG, idx int64) {
 			w1 = decimal.Word(wb)
 		}
 		w2 = decimal.Word(r.U64() % uint64(w1))
+	}
+	if ripple && (name == "add10VW" || name == "sub10VW") {
+		w1 = 1
 	}
 	shift := r.Range(1, 6)
 	call := func(twin bool, z, x, y []decimal.Word) decimal.Word {
@@ -313,15 +358,46 @@ func c07Case(c *hx.Ctx, r *hx.RNG, idx int64) {
 	// effective inputs as the kernel sees them (after the layout's copies)
 	where := [3]int{r.Intn(3), r.Intn(3), r.Intn(3)}
 	var placedN [3]int
-	za, xa, ya := layout(func(i, k int) []decimal.Word { placedN[i] = k; return c07Arenas[i].Place(k, where[i]) })
+	arenas := c07Arenas
+	far := false
+	switch {
+	case long:
+		arenas = c07Long
+	case c07FarLo != nil && r.Chance(6):
+		// two of the three buffers start at addresses that agree in their low 32 bits
+		far = true
+		pair := [][2]int{{0, 1}, {1, 0}, {0, 2}, {2, 0}, {1, 2}}[r.Intn(5)]
+		arenas[pair[0]], arenas[pair[1]] = c07FarHi, c07FarLo
+		w := r.Intn(2) * 1 // flush against the lower fence, or in the middle: the same offset in both arenas
+		if w == 0 {
+			w = 2
+		}
+		if extra != 0 && w == 2 {
+			w = 1 // (the middle placement centres a buffer on its own length)
+		}
+		where[pair[0]], where[pair[1]] = w, w
+	}
+	za, xa, ya := layout(func(i, k int) []decimal.Word { placedN[i] = k; return arenas[i].Place(k, where[i]) })
 	xeff, yeff, zeff := cloneW(xa), cloneW(ya), cloneW(za)
-	desc := fmt.Sprintf("%s n=%d extra=%d shape=%d where=%v w1=%d w2=%d s=%d x=%v y=%v z0=%v", name, n, extra, shape, where, w1, w2, s, xeff, yeff, zeff)
+	desc := fmt.Sprintf("%s n=%d extra=%d shape=%d where=%v far=%v ripple=%v w1=%d w2=%d s=%d x=%v y=%v z0=%v", name, n, extra, shape, where, far, ripple, w1, w2, s, xeff, yeff, zeff)
+	if n > 800 {
+		desc = fmt.Sprintf("%s n=%d extra=%d shape=%d where=%v ripple=%v w1=%d w2=%d s=%d (vectors of %d words: replay the case to see them)", name, n, extra, shape, where, ripple, w1, w2, s, n)
+	}
 	c.Note(desc)
 	var ca decimal.Word
 	pi := hx.Try(func() { ca = call(false, za, xa, ya) })
 	cls := "kernel/" + name
 	c.Eval(r.U64(), n > 0, cls)
 	c.Classes[fmt.Sprintf("shape/%d", shape)]++
+	if long {
+		c.Classes["long-vector"]++
+	}
+	if far {
+		c.Classes["addresses-4GiB-apart"]++
+	}
+	if ripple {
+		c.Classes["carry-ripple"]++
+	}
 	c.Classes[fmt.Sprintf("len%%4/%d", n%4)]++
 	if c.WantSample(cls) {
 		c.Sample(cls, desc)
@@ -332,7 +408,7 @@ func c07Case(c *hx.Ctx, r *hx.RNG, idx int64) {
 	}
 	za1 := cloneW(za)
 	for i := 0; i < 3; i++ {
-		if where[i] == 2 && placedN[i] > 0 && !c07Arenas[i].CanariesIntact(placedN[i]) {
+		if where[i] == 2 && placedN[i] > 0 && !arenas[i].CanariesIntact(placedN[i]) {
 			c.Violate("canary-overwritten", fmt.Sprintf("%s: a word next to operand buffer %d was overwritten", desc, i), "")
 			return
 		}
@@ -432,11 +508,11 @@ func c07Case(c *hx.Ctx, r *hx.RNG, idx int64) {
 		cd = rem
 	}
 	if !eqWords(za1, zg) || ca != cg {
-		c.Violate("kernel-twin-mismatch", fmt.Sprintf("%s: selected z=%v c=%d, portable z=%v c=%d", desc, za1, ca, zg, cg), "")
+		c.Violate("kernel-twin-mismatch", fmt.Sprintf("%s: selected z=%s c=%d, portable z=%s c=%d", desc, showDiff(za1, zg), ca, showDiff(zg, za1), cg), "")
 		return
 	}
 	if !eqWords(za1, zd) || bw(ca).Cmp(cd) != 0 {
-		c.Violate("kernel-definition-mismatch", fmt.Sprintf("%s: kernels z=%v c=%d, definition z=%v c=%v", desc, za1, ca, zd, cd), "")
+		c.Violate("kernel-definition-mismatch", fmt.Sprintf("%s: kernels z=%s c=%d, definition z=%s c=%v", desc, showDiff(za1, zd), ca, showDiff(zd, za1), cd), "")
 		return
 	}
 	if !binary {
@@ -477,4 +553,23 @@ func c07Transcript(c *hx.Ctx) {
 	}
 	c.Count("transcript_steps", int64(steps))
 	c.Count("transcript_panics_ErrNaN", int64(vm.nNaN))
+}
+
+// showDiff prints a (whole when short; for long vectors the words around the first difference with b).
+func showDiff(a, b []decimal.Word) string {
+	if len(a) <= 800 {
+		return fmt.Sprint(a)
+	}
+	i := 0
+	for i < len(a) && i < len(b) && a[i] == b[i] {
+		i++
+	}
+	lo, hi := i-2, i+3
+	if lo < 0 {
+		lo = 0
+	}
+	if hi > len(a) {
+		hi = len(a)
+	}
+	return fmt.Sprintf("(%d words; words %d..%d = %v)", len(a), lo, hi-1, a[lo:hi])
 }
